@@ -148,6 +148,16 @@ def run_real(M, cfg, w_init, Xw_init, sparse_X, n=None):
             setattr(acd, k, v)
 
 
+def cap_budget(cfg, H=22):
+    """The mock kernels move every coefficient half-way to its target per epoch, so after k epochs the distance carries k more
+    bits and the objective (its square) 2k more: past ~24 epochs in total binary64 rounds where the exact model does not, and the
+    strict comparisons of the solver (p_obj_acc < p_obj, score < 0.3 * stop_crit) may then go either way.  That is a property of
+    the correspondence, not of the solver: keep max_iter * max_epochs <= H so that the float run is exact."""
+    while cfg["max_iter"] > 1 and cfg["max_iter"] * cfg["max_epochs"] > H:
+        cfg["max_iter"] -= 1
+    return cfg
+
+
 def gen_case(rng):
     p = rng.randint(1, 5)
     n = p if rng.random() < 0.4 else rng.choice([rng.randint(1, p + 2), rng.randint(1, p)])   # n_samples != n_features in most runs (n < p often)
@@ -156,6 +166,7 @@ def gen_case(rng):
     cfg = dict(max_iter=rng.choice([0, 1, 1, 2, 3]), max_epochs=rng.choice([0, 1, 3, 4, 7, 10, 11, 12]),
                p0=rng.choice([1, 2, 10]), tol=rng.choice([0.0, 2 ** -10, 0.125, 0.5]), fixpoint=rng.random() < 0.35,
                fit_intercept=fi)
+    cap_budget(cfg)
     D = [k / 4 for k in range(-6, 7)]
     r = rng.random()
     if r < 0.35:
@@ -265,6 +276,7 @@ def make_path_cases(rng, n):
         cfg = dict(max_iter=rng.choice([1, 2, 3]), max_epochs=rng.choice([1, 3, 4, 7]), p0=rng.choice([1, 2, 10]),
                    tol=rng.choice([0.0, 2 ** -10, 0.125]), fixpoint=rng.random() < 0.35, fit_intercept=fi)
         alphas = [rng.choice([0.0, 0.25, 0.5, 1.0, 2.0]) for _ in range(rng.randint(1, 4))]      # any order, repeats allowed
+        cap_budget(cfg, H=max(7, 24 // len(alphas)))                                         # warm starts chain the halvings
         D = [j / 4 for j in range(-6, 7)]
         w_init = None
         if rng.random() < 0.5:
